@@ -134,6 +134,7 @@ class UnitRun(object):
         self.name = name
         self.variants = []
         self.late_rescued = []
+        self.inlined = []
         self.unstable = []
         self.extra_smt_ms = 0
         self.unit = None
@@ -313,8 +314,28 @@ def enumerate_obligations(unit, run):
     run.obligations = obs
 
 
-def build(name):
+
+def unresolved_names(diags):
+    """names of functions / methods the extracted text calls but does not define (rustc E0425 / E0599)"""
+    out = set()
+    for d in diags:
+        if d.get('level') != 'error':
+            continue
+        code = (d.get('code') or {}).get('code')
+        msg = d.get('message', '')
+        mm = None
+        if code == 'E0425':
+            mm = re.search(r'cannot find function `(\w+)`', msg)
+        elif code == 'E0599':
+            mm = re.search(r'no (?:method|function or associated item|associated function or constant|associated item) named `(\w+)` found', msg)
+        if mm and not mm.group(1).startswith('vx_'):
+            out.add(mm.group(1))
+    return out
+
+
+def build(name, inline=()):
     unit = extract.Unit(name, REPO)
+    unit.inline_names = set(inline)
     unit.tmpl_props = {}
     extract.process_template(unit, os.path.join(CONTRACTS, name + '.vrs'), PRELUDE)
     # per-lemma property tags: `proof fn name(..) //#C10,C02`
@@ -327,9 +348,10 @@ def build(name):
     return unit, data
 
 
-def build_late(name):
+def build_late(name, inline=()):
     """same unit with every pure hint (lemma calls, asserts) moved to the end of its block"""
     unit = extract.Unit(name, REPO)
+    unit.inline_names = set(inline)
     unit.tmpl_props = {}
     unit.late_hints = True
     extract.process_template(unit, os.path.join(CONTRACTS, name + '.vrs'), PRELUDE)
@@ -342,13 +364,14 @@ def build_late(name):
     return unit, data
 
 
-def build_probe(name):
+def build_probe(name, inline=()):
     """same unit, with `assert(false)` as first statement of every verified fn body:
     every one of them must FAIL, otherwise the fn's precondition (or a shim axiom)
     is contradictory and its proof is vacuous"""
     unit = extract.Unit(name, REPO)
     unit.tmpl_props = {}
     unit.probe = True
+    unit.inline_names = set(inline)
     extract.process_template(unit, os.path.join(CONTRACTS, name + '.vrs'), PRELUDE)
     data = unit.finish()
     return unit, data
@@ -358,6 +381,19 @@ def run_unit(name, tier, want_probe=True):
     run = UnitRun(name)
     t0 = time.time()
     unit, data = build(name)
+    inline = set()
+    pre = None
+    for _round in range(3):
+        # R24: a call of a repository function that is not under contract (unresolved name in the extracted text) is
+        # replaced by that function's body; the unit is rebuilt until no such name is left (at most three rounds)
+        pre = run_verus(data, name, (), tier != 'thorough')
+        missing = unresolved_names(pre['diags'])
+        missing -= inline
+        if not missing:
+            break
+        inline |= missing
+        unit, data = build(name, inline)
+    run.inlined = sorted(inline)
     run.unit = unit
     run.data = data
     enumerate_obligations(unit, run)
@@ -365,7 +401,7 @@ def run_unit(name, tier, want_probe=True):
     pfut = None
     pex = None
     if want_probe:
-        punit, pdata = build_probe(name)
+        punit, pdata = build_probe(name, inline)
         pex = ThreadPoolExecutor(max_workers=1)
         pfut = pex.submit(run_verus, pdata, name + '_probe')
     vfuts = []
@@ -375,7 +411,7 @@ def run_unit(name, tier, want_probe=True):
         vex = ThreadPoolExecutor(max_workers=len(THOROUGH_VARIANTS))
         for vname, vflags in THOROUGH_VARIANTS:
             vfuts.append((vname, vex.submit(run_verus, data, name, vflags, False)))
-    res = run_verus(data, name, (), tier != 'thorough')
+    res = pre if (pre is not None and tier != 'thorough') else run_verus(data, name, (), tier != 'thorough')
     run.verus = res
     classify(unit, data, res['diags'], run)
     if res['rc'] != 0 and not res['diags']:
@@ -384,7 +420,7 @@ def run_unit(name, tier, want_probe=True):
         # second attempt: proof aids that only state facts are placed as late as possible in their block.
         # A function that verifies in either placement is proved (the aids are not part of the claim).
         try:
-            lunit, ldata = build_late(name)
+            lunit, ldata = build_late(name, inline)
             if ldata != data:
                 lres = run_verus(ldata, name + '_late')
                 lrun = UnitRun(name)
